@@ -18,13 +18,13 @@ CHECKS = [
     {
         "id": "C12",
         "technique": "exhaustive enumeration of recv partitions for short chunked bodies + Hypothesis-generated bodies / partitions / bufsizes / compression parameters + atheris coverage-guided campaign, all judged by an independent RFC 9112 chunk decoder",
-        "text": "Generated well-formed chunked bodies (plain, gzip, zlib, raw deflate per chunk) are delivered through every composition of the encoded stream for n <= 15, every 1- and 2-cut partition for n <= 120 and generated partitions beyond; the bytes drained from SocketWrapper.read must equal the reference decoding of the unsegmented stream and read must not raise.",
+        "text": "Generated well-formed chunked bodies (plain, gzip, zlib, raw deflate per chunk) are delivered through every composition of the encoded stream for n <= 15, every 1- and 2-cut partition for n <= 120 and generated partitions beyond; the bytes drained from SocketWrapper.read must equal the reference decoding of the unsegmented stream and read must not raise. Around one chunk whose body is not a valid compressed stream, the decoded bodies of the well-formed chunks before and after it must still be delivered.",
         "note": "Chunk extensions / trailers are not generated.",
     },
     {
         "id": "C13",
         "technique": "Hypothesis-generated parse histories (op lists) with deep table digests + generated deterministic thread schedules (harness-owned line-level scheduler) + free-running thread stress",
-        "text": "Generated histories of valid / failing / mixed-type parses through four entry points and a long-lived reader: each result must equal the independent interpreter's expectation and the first parse of the same bytes, and the definition / lookup tables must keep their import-time digest after every step; 2-4 parse jobs are interleaved at source-line granularity following a generated choice list and must give the sequential results; an 8-thread free-running stress with a 1 microsecond switch interval backs this up. Also: fresh child interpreters in which six threads parse and checksum at once before anything else was parsed (lazy initialisation), sibling re-numberings (same masks under another constellation), immediate repeats of failing frames on a long-lived reader, and a hash-built workload with thousands of distinct group-index tuples in the thread stress.",
+        "text": "Generated histories of valid / failing / mixed-type parses through four entry points and a long-lived reader (compared with a fresh reader over the same frame: junk before frames, wrong trailers with validation off, polling after the stream ran dry): each result must equal the independent interpreter's expectation and the first parse of the same bytes, and the definition / lookup tables must keep their import-time digest after every step; 2-4 parse jobs are interleaved at source-line granularity following a generated choice list and must give the sequential results; an 8-thread free-running stress with a 1 microsecond switch interval backs this up. Also: fresh child interpreters in which six threads parse and checksum at once before anything else was parsed (lazy initialisation), sibling re-numberings (same masks under another constellation), immediate repeats of failing frames on a long-lived reader, and a hash-built workload with thousands of distinct group-index tuples in the thread stress.",
         "note": "Interleavings finer than a source line and GIL-free parallelism are not explored.",
     },
     {
